@@ -393,14 +393,18 @@ def typed_dict_signature(obj: tp.Callable) -> inspect.Signature:
     """
     hints = cached_type_hints(obj)
     total = getattr(obj, "__total__", True)
-    default = inspect.Parameter.empty if total else ...
+    # `__total__` only describes the class's own body: keys inherited from a base of
+    #   another totality, `Required[...]` and `NotRequired[...]` are in `__required_keys__`.
+    required = getattr(obj, "__required_keys__", hints.keys() if total else ())
     return inspect.Signature(
         parameters=tuple(
             inspect.Parameter(
                 name=x,
                 kind=inspect.Parameter.KEYWORD_ONLY,
                 annotation=y,
-                default=getattr(obj, x, default),
+                default=getattr(
+                    obj, x, inspect.Parameter.empty if x in required else ...
+                ),
             )
             for x, y in hints.items()
         )
